@@ -163,7 +163,7 @@ func readContractLines(path string) ([]cline, string, error) {
 	return out, pkgName, nil
 }
 
-var reFuncHdr = regexp.MustCompile(`^(\(\s*\*?[\w./-]+\s*\)\s*\.\s*\w+|[\w./-]+)\s*\(([^)]*)\)\s*(?:\(([^)]*)\))?\s*$`)
+var reFuncHdr = regexp.MustCompile(`^(\(\s*\*?[\w./-]+\s*\)\s*\.\s*\w+|[\w./@:#$-]+)\s*\(([^)]*)\)\s*(?:\(([^)]*)\))?\s*$`)
 
 func namesOf(list string) []string {
 	var out []string
@@ -192,6 +192,9 @@ func qualify(name, pkgPath string) string {
 			recv = pkgPath + "." + recv
 		}
 		return "(" + star + recv + ")" + rest
+	}
+	if strings.HasPrefix(name, "@") && pkgPath != "" {
+		return pkgPath + "." + name // anonymous function alias @file.go:n
 	}
 	if !strings.Contains(name, ".") && pkgPath != "" {
 		return pkgPath + "." + name
